@@ -37,6 +37,11 @@ def classify_known(pid, leg, case, kind, known):
             continue
         if m.get("oracle") and m["oracle"] != getattr(case, "failed_oracle", None):
             continue
+        if m.get("pred"):
+            # a predicate of the family module deciding whether this failing case is exactly the recorded finding
+            fn = getattr(load_family(leg["family"]), m["pred"], None)
+            if fn is None or not fn(case):
+                continue
         return k
     return None
 
